@@ -8,7 +8,7 @@
    `saturating_as::<i32>()`), which IS modelled; the hypotheses `isect_nosat` / `join_nosat` say that the
    cast is not reached (the rounded quotient fits an i32), `jline_ok` is the coordinate range +-511 in
    which that is guaranteed for arbitrary pairs of lines. *)
-From EG Require Import Base.Prelude Model.Geometry Model.Line Model.Thickline Model.Join Proofs.Join.
+From EG Require Import Base.Prelude Model.Geometry Model.Line Model.Thickline Model.Join Model.JoinTri Proofs.Join.
 Set Default Timeout 60.
 
 (* the arithmetic core of repair a4a7ab8 (floor-based rounding): adding k divisors to the numerator moves the
@@ -130,6 +130,16 @@ Theorem C07_join_polyline_bbox_translate : forall w d a b r,
   poly_thick_bounding_box (map (tr_pt d) (a :: b :: r)) w =
   option_map (fun bb => translate_rect bb d) (poly_thick_bounding_box (a :: b :: r) w).
 Proof. exact poly_thick_bounding_box_tr. Qed.
+
+(* ---- thick triangles (Model/JoinTri.v): the full statement C07_join_triangle_translate is OPEN (see Proofs/Join.v);
+   proved: the scanline of every thick edge of the stroke moves with the triangle, for all three stroke offsets *)
+Theorem C07_join_triangle_edge_scanline_translate_partial : forall t w so d idx y, tri_nosat t w so d = true ->
+  match jt_edge_scanline t w so idx y, jt_edge_scanline (tr_tri d t) w so idx (y + py d) with
+  | Some s, Some s' => sl_rel d s s'
+  | None, None => True
+  | _, _ => False
+  end.
+Proof. exact jt_edge_scanline_rel. Qed.
 
 (* non-vacuity: the hypotheses hold and the functions compute something non-trivial.
    The lines of finding l (Triangle (0,0),(3,1),(3,9), stroke 4, moved by (13,-11)): a miter join whose
